@@ -759,60 +759,288 @@ Proof.
   rewrite <- app_assoc in Hnum. rewrite Et in *. cbn [app] in *. apply scan_via_numeric; [apply num_start_app; exact Hh|exact Hnum|reflexivity].
 Qed.
 
-(* --- class: strings and bad strings (bodies without escapes) -------------------------------------------------- *)
+(* --- class: strings and bad strings ---------------------------------------------------------------------------- *)
 Definition str_byte (q c : Z) : bool := negb (c =? q) && negb (c =? 92) && negb (is_nl c).
 Definition is_quote (q : Z) : Prop := q = 34 \/ q = 39.
+
+(* a line break as consumeNewline reads it: \n, \f, \r\n, or \r not followed by \n *)
+Definition line_break (nlb y : list Z) : Prop :=
+  nlb = [10] \/ nlb = [12] \/ nlb = [13; 10] \/ (nlb = [13] /\ hd0 y <> 10).
+
+(* a string body t followed by r: plain bytes, escapes (with the follower they tolerate), and line continuations *)
+Inductive sbody (q : Z) : list Z -> list Z -> Prop :=
+| SB_nil r : sbody q [] r
+| SB_char c t r : str_byte q c = true -> sbody q t r -> sbody q (c :: t) r
+| SB_esc e nb t r : esc_text e nb -> nb (hd0 (t ++ r)) = true -> sbody q t r -> sbody q (e ++ t) r
+| SB_cont nlb t r : line_break nlb (t ++ r) -> sbody q t r -> sbody q (92 :: nlb ++ t) r.
+
+Lemma all_b_sbody q a r : all_b (str_byte q) a -> sbody q a r.
+Proof. induction 1; constructor; assumption. Qed.
 
 Lemma eofb_app_cons a c x : eofb (a ++ c :: x) = match a with [] => eofb (c :: x) | [_] => false | _ => false end.
 Proof. destruct a as [|a0 [|a1 a]]; reflexivity. Qed.
 
-Lemma string_loop_run q body c x : is_quote q -> all_b (str_byte q) body -> (c = q \/ is_nl c = true) ->
-  string_loop q (body ++ c :: x ++ [0]) 0 =
-    Some (if is_nl c then TBadString else TString, len body + 1).
+Definition shift2 {A} (n : Z) (o : option (A * Z)) : option (A * Z) :=
+  match o with Some (a, m) => Some (a, n + m) | None => None end.
+
+Lemma string_loop_skipn q : forall a l, string_loop q (a ++ l) (length a) = shift2 (len a) (string_loop q l 0).
 Proof.
-  intros Hq Hb Hc. induction Hb as [|y body Hy Hb IH]; cbn [app].
-  - rewrite string_loop_0. replace (eofb (c :: x ++ [0])) with false by (destruct x; reflexivity).
-    rewrite andb_false_r. destruct (is_nl c) eqn:En; [reflexivity|].
-    destruct Hc as [->|?]; [|congruence]. rewrite Z.eqb_refl. reflexivity.
-  - rewrite string_loop_0. replace (eofb (y :: body ++ c :: x ++ [0])) with false by (destruct body; reflexivity).
+  induction a as [|x a IH]; intros l; cbn [app length].
+  - change (len (@nil Z)) with 0. destruct (string_loop q l 0) as [[ty n]|]; reflexivity.
+  - rewrite string_loop_skip, IH. destruct (string_loop q l 0) as [[ty n]|]; cbn [bump2 shift2]; [|reflexivity].
+    rewrite len_cons. f_equal; f_equal; lia.
+Qed.
+
+Lemma escape_fail r : r = [] \/ is_nl (hd0 r) = true -> consume_escape (92 :: r ++ [0]) = Some 0.
+Proof.
+  intros Hf. unfold consume_escape. rewrite peekz_0. cbn [option_bind negb Z.eqb Pos.eqb tl].
+  destruct Hf as [->|Hnl]; [reflexivity|].
+  destruct r as [|x r]; [discriminate Hnl|]. cbn [hd0 app] in *.
+  destruct (consume_newline_ok (x :: r)) as (n & Hn & _). cbn [app] in Hn. rewrite Hn. cbn [option_bind].
+  rewrite (newline_pos _ _ _ Hn), Hnl. reflexivity.
+Qed.
+
+Lemma line_break_run nlb y : line_break nlb y -> consume_newline (nlb ++ y ++ [0]) = Some (len nlb) /\ is_nl (hd0 nlb) = true.
+Proof.
+  intros [->|[->|[->|[-> Hy]]]]; (split; [|reflexivity]); unfold consume_newline; cbn [app]; rewrite peekz_0; cbn [option_bind];
+    try reflexivity.
+  - rewrite peekz_1, peekz_0. reflexivity.
+  - rewrite peekz_1, peekz_sent_0. cbn [option_bind Z.eqb Pos.eqb orb]. replace (hd0 y =? 10) with false by lia. reflexivity.
+Qed.
+
+(* the loop of consumeString walks over a body and continues at what follows it *)
+Lemma string_loop_body q body x : is_quote q -> sbody q body x ->
+  string_loop q (body ++ x ++ [0]) 0 = shift2 (len body) (string_loop q (x ++ [0]) 0).
+Proof.
+  intros Hq Hb. induction Hb as [x|y body x Hy Hb IH|e nb t x He Hnb Ht IH|nlb t x Hnl Ht IH].
+  - cbn [app]. change (len (@nil Z)) with 0. destruct (string_loop q (x ++ [0]) 0) as [[ty n]|]; reflexivity.
+  - cbn [app]. rewrite string_loop_0. rewrite app_assoc, eofb_cons_sent.
     rewrite andb_false_r. unfold str_byte in Hy. apply andb_true_iff in Hy. destruct Hy as [Hy Hy3].
     apply andb_true_iff in Hy. destruct Hy as [Hy1 Hy2].
     replace (is_nl y) with false by (destruct (is_nl y); [discriminate|reflexivity]).
     replace (y =? q) with false by (destruct (y =? q); [discriminate|reflexivity]).
     replace (y =? 92) with false by (destruct (y =? 92); [discriminate|reflexivity]).
-    rewrite IH. cbn [bump2]. rewrite len_cons. f_equal; f_equal; lia.
+    rewrite <- app_assoc, IH. destruct (string_loop q (x ++ [0]) 0) as [[ty n]|]; cbn [bump2 shift2]; [|reflexivity].
+    rewrite len_cons. f_equal; f_equal; lia.
+  - destruct (esc_text_bs e nb He) as (e' & -> & He').
+    pose proof (escape_run _ _ (t ++ x) He Hnb) as Hesc. rewrite <- !app_assoc in *. cbn [app] in *.
+    rewrite string_loop_0. change (92 =? 0) with false. change (is_nl 92) with false.
+    replace (92 =? q) with false by (destruct Hq; subst; reflexivity). change (92 =? 92) with true. cbv beta iota. cbn [andb].
+    cbv beta iota. rewrite Hesc. cbn [option_bind]. rewrite len_cons. replace (0 <? 1 + len e') with true by lia.
+    replace (Z.to_nat (1 + len e' - 1)) with (length e') by (unfold len; lia).
+    rewrite string_loop_skipn, IH. destruct (string_loop q (x ++ [0]) 0) as [[ty n]|]; cbn [bump2 shift2]; [|reflexivity].
+    rewrite !len_cons, len_app. f_equal; f_equal; lia.
+  - destruct (line_break_run nlb (t ++ x) Hnl) as [Hrun Hhd]. rewrite <- app_assoc in Hrun.
+    cbn [app]. rewrite <- !app_assoc. rewrite string_loop_0. change (92 =? 0) with false. change (is_nl 92) with false.
+    replace (92 =? q) with false by (destruct Hq; subst; reflexivity). change (92 =? 92) with true. cbn [andb]. cbv beta iota.
+    replace (nlb ++ t ++ x ++ [0]) with ((nlb ++ t ++ x) ++ [0]) by (rewrite <- !app_assoc; reflexivity).
+    rewrite escape_fail.
+    2:{ right. destruct Hnl as [->|[->|[->|[-> _]]]]; reflexivity. }
+    cbn [option_bind Z.ltb Z.compare]. cbv beta iota. rewrite <- !app_assoc. rewrite Hrun. cbn [option_bind].
+    replace (Z.to_nat (len nlb)) with (length nlb) by (unfold len; lia).
+    rewrite string_loop_skipn, IH. destruct (string_loop q (x ++ [0]) 0) as [[ty n]|]; cbn [bump2 shift2]; [|reflexivity].
+    rewrite !len_cons, len_app. f_equal; f_equal; lia.
 Qed.
 
-Lemma munch_string q body r : is_quote q -> all_b (str_byte q) body -> munch TString (q :: body ++ [q]) r.
+Lemma string_loop_run q body c x : is_quote q -> sbody q body (c :: x) -> (c = q \/ is_nl c = true) ->
+  string_loop q (body ++ c :: x ++ [0]) 0 =
+    Some (if is_nl c then TBadString else TString, len body + 1).
+Proof.
+  intros Hq Hb Hc. pose proof (string_loop_body q body (c :: x) Hq Hb) as H. cbn [app] in H. rewrite H.
+  rewrite string_loop_0, eofb_cons_sent, andb_false_r. destruct (is_nl c) eqn:En; [reflexivity|].
+  destruct Hc as [->|?]; [|congruence]. rewrite Z.eqb_refl. reflexivity.
+Qed.
+
+Lemma scan_quote q l : is_quote q -> css_scan (q :: l) = r <- consume_string (q :: l) ;; Some (or_delim r).
+Proof.
+  intros Hq. unfold css_scan. rewrite peekz_0. cbn [option_bind]. destruct Hq; subst; reflexivity.
+Qed.
+
+Lemma consume_string_run q body c x : is_quote q -> sbody q body (c :: x) -> (c = q \/ is_nl c = true) ->
+  consume_string (q :: body ++ c :: x ++ [0]) = Some (if is_nl c then TBadString else TString, len (q :: body ++ [c])).
+Proof.
+  intros Hq Hb Hc. unfold consume_string. rewrite peekz_0. cbn [option_bind tl].
+  rewrite (string_loop_run q body c x Hq Hb Hc). cbn [bump2]. rewrite !len_cons, len_app. change (len [c]) with 1.
+  f_equal; f_equal; lia.
+Qed.
+
+Lemma munch_string q body r : is_quote q -> sbody q body (q :: r) -> munch TString (q :: body ++ [q]) r.
 Proof.
   intros Hq Hb. split; [|split; [reflexivity|discriminate]].
-  unfold css_scan. cbn [app]. rewrite peekz_0. cbn [option_bind].
-  assert (Hqq : (q =? 34) || (q =? 39) = true) by (destruct Hq; subst; reflexivity).
-  replace (is_ws q) with false by (destruct Hq; subst; reflexivity).
-  repeat (match goal with |- context [if ?b then _ else _] =>
-            first [ constr_eq b ((q =? 34) || (q =? 39)); fail 1
-                  | replace b with false by (destruct Hq; subst; reflexivity) ] end).
-  rewrite Hqq. unfold consume_string. rewrite peekz_0. cbn [option_bind tl].
-  rewrite <- app_assoc. cbn [app].
-  rewrite (string_loop_run q body q r Hq Hb (or_introl eq_refl)).
-  replace (is_nl q) with false by (destruct Hq; subst; reflexivity). cbn [bump2 option_bind].
-  unfold or_delim. cbn [fst is_err]. rewrite !len_cons, len_app. change (len [q]) with 1. f_equal; f_equal; lia.
+  cbn [app]. rewrite <- app_assoc. cbn [app]. rewrite (scan_quote q _ Hq).
+  rewrite (consume_string_run q body q r Hq Hb (or_introl eq_refl)).
+  replace (is_nl q) with false by (destruct Hq; subst; reflexivity). reflexivity.
 Qed.
 
-Lemma munch_bad_string q body nl r : is_quote q -> all_b (str_byte q) body -> is_nl nl = true ->
+Lemma munch_bad_string q body nl r : is_quote q -> sbody q body (nl :: r) -> is_nl nl = true ->
   munch TBadString (q :: body ++ [nl]) r.
 Proof.
   intros Hq Hb Hnl. split; [|split; [reflexivity|discriminate]].
-  unfold css_scan. cbn [app]. rewrite peekz_0. cbn [option_bind].
-  assert (Hqq : (q =? 34) || (q =? 39) = true) by (destruct Hq; subst; reflexivity).
-  replace (is_ws q) with false by (destruct Hq; subst; reflexivity).
-  repeat (match goal with |- context [if ?b then _ else _] =>
-            first [ constr_eq b ((q =? 34) || (q =? 39)); fail 1
-                  | replace b with false by (destruct Hq; subst; reflexivity) ] end).
-  rewrite Hqq. unfold consume_string. rewrite peekz_0. cbn [option_bind tl].
-  rewrite <- app_assoc. cbn [app].
-  rewrite (string_loop_run q body nl r Hq Hb (or_intror Hnl)). rewrite Hnl. cbn [bump2 option_bind].
-  unfold or_delim. cbn [fst is_err]. rewrite !len_cons, len_app. change (len [nl]) with 1. f_equal; f_equal; lia.
+  cbn [app]. rewrite <- app_assoc. cbn [app]. rewrite (scan_quote q _ Hq).
+  rewrite (consume_string_run q body nl r Hq Hb (or_intror Hnl)). rewrite Hnl. reflexivity.
+Qed.
+
+(* a string that is not closed before the end of the input (optionally ending in a lone backslash) *)
+Lemma munch_string_eof q body bs : is_quote q -> sbody q body bs -> (bs = [] \/ bs = [92]) ->
+  munch TString (q :: body ++ bs) [].
+Proof.
+  intros Hq Hb Hbs. split; [|split; [reflexivity|discriminate]].
+  cbn [app]. rewrite (scan_quote q _ Hq). unfold consume_string. rewrite peekz_0. cbn [option_bind tl].
+  rewrite <- app_assoc. rewrite (string_loop_body q body bs Hq Hb).
+  destruct Hbs as [->| ->]; cbn [app].
+  - rewrite string_loop_0. cbn [eofb Z.eqb andb shift2 bump2 option_bind]. unfold or_delim. cbn [fst is_err].
+    rewrite app_nil_r, len_cons. f_equal; f_equal; lia.
+  - rewrite string_loop_0. change (92 =? 0) with false. change (is_nl 92) with false.
+    replace (92 =? q) with false by (destruct Hq; subst; reflexivity). change (92 =? 92) with true. cbn [andb]. cbv beta iota.
+    change (consume_escape [92; 0]) with (Some 0). cbn [option_bind Z.ltb Z.compare]. cbv beta iota.
+    change (consume_newline [0]) with (Some 0). cbn [option_bind Z.to_nat]. rewrite string_loop_0.
+    cbn [eofb Z.eqb andb shift2 bump2 option_bind]. unfold or_delim. cbn [fst is_err].
+    rewrite len_cons, len_app. change (len [92]) with 1. f_equal; f_equal; lia.
+Qed.
+
+(* --- class: delimiters ------------------------------------------------------------------------------------------ *)
+(* bytes that start no other token whatever follows *)
+Definition plain_delim (c : Z) : bool :=
+  (c =? 33) || (c =? 37) || (c =? 38) || (c =? 61) || (c =? 62) || (c =? 63) || (c =? 96) || (c =? 127)
+  || ((1 <=? c) && (c <=? 8)) || (c =? 11) || ((14 <=? c) && (c <=? 31)).
+
+(* a delimiter byte c and what may follow it (CSS Syntax: the checks "would start a number / an identifier /
+   a valid escape", and the two-byte operators of this lexer) *)
+Definition delim_ok (c : Z) (r : list Z) : Prop :=
+  plain_delim c = true \/ c = 0 \/
+  (c = 35 /\ name_follow r) \/
+  (c = 64 /\ no_name_start r) \/
+  (c = 43 /\ is_digit (hd0 r) = false /\ (hd0 r = 46 -> is_digit (second r) = false)) \/
+  (c = 46 /\ is_digit (hd0 r) = false) \/
+  (c = 45 /\ is_digit (hd0 r) = false /\ hd0 r <> 46 /\ no_name_start r) \/
+  ((c = 36 \/ c = 42 \/ c = 94 \/ c = 126) /\ hd0 r <> 61) \/
+  (c = 124 /\ hd0 r <> 61 /\ hd0 r <> 124) \/
+  (c = 47 /\ hd0 r <> 42) \/
+  (c = 60 /\ hd0 r <> 33) \/
+  (c = 92 /\ (r = [] \/ is_nl (hd0 r) = true)).
+
+Lemma ident_token_fail_cons c r : ident_start c = false -> c <> 45 -> c <> 92 -> consume_ident_token (c :: r ++ [0]) = Some 0.
+Proof. intros H1 H2 H3. apply (ident_token_fail (c :: r)). repeat split; assumption. Qed.
+
+Lemma identlike_fail l : consume_ident_token l = Some 0 -> consume_identlike l = Some (TError, 0).
+Proof. intros H. unfold consume_identlike. rewrite H. reflexivity. Qed.
+
+Lemma munch_delim c r : delim_ok c r -> munch TDelim [c] r.
+Proof.
+  intros H. split; [|split; [reflexivity|discriminate]]. cbn [app]. change (len [c]) with 1.
+  unfold css_scan. rewrite peekz_0. cbn [option_bind].
+  destruct H as [H|[H|[(-> & Hf1 & Hf2)|[(-> & Hn)|[(-> & Hd & Hdot)|[(-> & Hd)|[(-> & Hd & H46 & Hn)|[(Hc & Hf)|[(-> & Hf1 & Hf2)|[(-> & Hf)|[(-> & Hf)|(-> & Hf)]]]]]]]]]]].
+  - (* a byte that starts nothing *)
+    unfold plain_delim in H. repeat dec1. rewrite numeric_nondigit by (cls; lia). cbn [option_bind fst is_err negb].
+    rewrite identlike_fail by (apply ident_token_fail_cons; cls; lia). reflexivity.
+  - subst c. repeat dec1. rewrite eofb_cons_sent. reflexivity.
+  - repeat dec1. unfold consume_hash. cbn [tl]. rewrite peekz_sent_0. cbn [option_bind]. rewrite Hf1.
+    replace (hd0 r =? 92) with false by lia. reflexivity.
+  - repeat dec1. unfold consume_at_keyword. cbn [tl]. rewrite (ident_token_fail r Hn). reflexivity.
+  - repeat dec1. unfold consume_numeric, consume_number_token. rewrite peekz_0. cbn [option_bind].
+    change (is_sign 43) with true. cbv beta iota. rewrite skipz_1.
+    assert (Hdg : digits (r ++ [0]) = Some 0).
+    { unfold digits. destruct r as [|x r]; cbn [app hd0] in *; rewrite scan_while_cons; [reflexivity|rewrite Hd; reflexivity]. }
+    rewrite Hdg. cbn [option_bind]. rewrite skipz_0, peekz_sent_0. cbn [option_bind].
+    destruct (hd0 r =? 46) eqn:E46; [|reflexivity].
+    destruct r as [|x r]; [discriminate E46|]. cbn [hd0 app tl] in *. unfold second in Hdot. cbn [tl] in Hdot.
+    assert (Hdg2 : digits (r ++ [0]) = Some 0).
+    { unfold digits. destruct r as [|y r]; cbn [app hd0] in *; rewrite scan_while_cons; [reflexivity|rewrite Hdot by lia; reflexivity]. }
+    rewrite Hdg2. reflexivity.
+  - repeat dec1. unfold consume_numeric, consume_number_token. rewrite peekz_0. cbn [option_bind].
+    change (is_sign 46) with false. cbv beta iota. rewrite skipz_0. unfold digits at 1. rewrite scan_while_cons.
+    change (is_digit 46) with false. cbv beta iota. cbn [option_bind]. rewrite skipz_0, peekz_0. cbn [option_bind tl].
+    change (46 =? 46) with true. cbv beta iota.
+    assert (Hdg : digits (r ++ [0]) = Some 0).
+    { unfold digits. destruct r as [|x r]; cbn [app hd0] in *; rewrite scan_while_cons; [reflexivity|rewrite Hd; reflexivity]. }
+    rewrite Hdg. reflexivity.
+  - destruct Hn as (Hn1 & Hn2 & Hn3). repeat dec1.
+    unfold consume_cdc. rewrite peekz_0, peekz_1, peekz_sent_0. cbn [option_bind]. repeat dec1.
+    replace (hd0 r =? 45) with false by lia. cbn [negb option_bind Z.ltb Z.compare]. cbv beta iota.
+    unfold consume_custom_variable. rewrite peekz_1, peekz_sent_0. cbn [option_bind].
+    replace (hd0 r =? 45) with false by lia. cbn [negb option_bind Z.ltb Z.compare]. cbv beta iota.
+    assert (Hit : consume_ident_token (45 :: r ++ [0]) = Some 0).
+    { unfold consume_ident_token. rewrite peekz_0, peekz_1, peekz_sent_0. cbn [option_bind]. change (45 =? 45) with true.
+      cbv beta iota. replace (hd0 r =? 45) with false by lia. unfold ident_tail. rewrite skipz_1, peekz_sent_0.
+      cbn [option_bind]. rewrite Hn1. replace (hd0 r =? 92) with false by lia. reflexivity. }
+    rewrite (identlike_fail _ Hit). cbn [option_bind fst is_err negb].
+    unfold consume_numeric, consume_number_token. rewrite peekz_0. cbn [option_bind].
+    change (is_sign 45) with true. cbv beta iota. rewrite skipz_1.
+    assert (Hdg : digits (r ++ [0]) = Some 0).
+    { unfold digits. destruct r as [|x r]; cbn [app hd0] in *; rewrite scan_while_cons; [reflexivity|rewrite Hd; reflexivity]. }
+    rewrite Hdg. cbn [option_bind]. rewrite skipz_0, peekz_sent_0. cbn [option_bind].
+    replace (hd0 r =? 46) with false by lia. reflexivity.
+  - assert (Hm : consume_match (c :: r ++ [0]) = Some (TError, 0)).
+    { unfold consume_match. rewrite peekz_1, peekz_sent_0. cbn [option_bind]. replace (hd0 r =? 61) with false by lia. reflexivity. }
+    repeat dec1. rewrite Hm. reflexivity.
+  - assert (Hm : consume_match (124 :: r ++ [0]) = Some (TError, 0)).
+    { unfold consume_match. rewrite peekz_1, peekz_sent_0. cbn [option_bind]. replace (hd0 r =? 61) with false by lia. reflexivity. }
+    repeat dec1. rewrite Hm. cbn [option_bind fst is_err negb]. unfold consume_column. rewrite peekz_0, peekz_1, peekz_sent_0.
+    cbn [option_bind]. repeat dec1. replace (hd0 r =? 124) with false by lia. reflexivity.
+  - repeat dec1. unfold consume_comment. rewrite peekz_0, peekz_1, peekz_sent_0. cbn [option_bind]. repeat dec1.
+    replace (hd0 r =? 42) with false by lia. reflexivity.
+  - repeat dec1. unfold consume_cdo. rewrite peekz_0, peekz_1, peekz_sent_0. cbn [option_bind]. repeat dec1.
+    replace (hd0 r =? 33) with false by lia. reflexivity.
+  - repeat dec1.
+    assert (Hesc : consume_escape (92 :: r ++ [0]) = Some 0).
+    { unfold consume_escape. rewrite peekz_0. cbn [option_bind negb Z.eqb Pos.eqb tl].
+      destruct Hf as [->|Hnl]; [reflexivity|].
+      destruct r as [|x r]; [discriminate Hnl|]. cbn [hd0 app] in *.
+      destruct (consume_newline_ok (x :: r)) as (n & Hn & _). cbn [app] in Hn. rewrite Hn. cbn [option_bind].
+      rewrite (newline_pos _ _ _ Hn), Hnl. reflexivity. }
+    assert (Hit : consume_ident_token (92 :: r ++ [0]) = Some 0).
+    { unfold consume_ident_token. rewrite peekz_0. cbn [option_bind]. change (92 =? 45) with false. cbv beta iota.
+      unfold ident_tail. rewrite skipz_0, peekz_0. cbn [option_bind]. change (ident_start 92) with false. change (92 =? 92) with true.
+      cbv beta iota. rewrite Hesc. reflexivity. }
+    rewrite (identlike_fail _ Hit). reflexivity.
+Qed.
+
+(* --- class: unicode-range ---------------------------------------------------------------------------------------- *)
+Inductive urange_text : list Z -> list Z -> Prop :=
+| UR_hex u h q r : u = 117 \/ u = 85 -> all_b is_hex h -> all_b is_qmark q -> 1 <= len h + len q <= 6 ->
+    (q = [] -> is_hex (hd0 r) = false /\ hd0 r <> 45) -> hd0 r <> 63 ->
+    urange_text (u :: 43 :: h ++ q) r
+| UR_range u h1 h2 r : u = 117 \/ u = 85 -> all_b is_hex h1 -> 1 <= len h1 <= 6 -> all_b is_hex h2 -> 1 <= len h2 <= 6 ->
+    is_hex (hd0 r) = false -> urange_text (u :: 43 :: h1 ++ 45 :: h2) r.
+
+Lemma all_b_hd P a : all_b P a -> a <> [] -> P (hd0 a) = true.
+Proof. intros Ha Hne. destruct a; [congruence|]. inversion Ha; subst. assumption. Qed.
+
+Lemma munch_unicode_range t r : urange_text t r -> munch TUnicodeRange t r.
+Proof.
+  intros Ht. split; [|split; [reflexivity|destruct Ht; discriminate]].
+  assert (Hur : consume_unicode_range (t ++ r ++ [0]) = Some (len t) /\ 0 < len t /\
+                exists u rest, t = u :: rest /\ (u = 117 \/ u = 85)).
+  { destruct Ht as [u h q r Hu Hh Hq Hl Hf1 Hf2|u h1 h2 r Hu Hh1 Hl1 Hh2 Hl2 Hf].
+    - split; [|split; [lens; pose proof (len_nonneg (h ++ q)); lia|eauto]].
+      unfold consume_unicode_range. cbn [app]. rewrite peekz_0, peekz_1, peekz_0. cbn [option_bind].
+      replace ((u =? 117) || (u =? 85)) with true by lia. change (43 =? 43) with true. cbn [negb]. rewrite skipz_2.
+      rewrite <- app_assoc.
+      replace (h ++ q ++ r ++ [0]) with (h ++ (q ++ r) ++ [0]) by (rewrite <- app_assoc; reflexivity).
+      assert (Hnh : is_hex (hd0 (q ++ r)) = false).
+      { destruct q as [|q0 q]; [apply Hf1; reflexivity|]. inversion Hq; subst. cbn [app hd0]. cls. lia. }
+      rewrite (scan_while_run is_hex h (q ++ r) Hh Hnh eq_refl). cbn [option_bind]. rewrite skipz_len_app.
+      assert (Hn45 : hd0 (q ++ r) <> 45).
+      { destruct q as [|q0 q]; [apply Hf1; reflexivity|]. inversion Hq; subst. cbn [app hd0]. cls. lia. }
+      unfold consume_byte. rewrite peekz_sent_0. cbn [option_bind]. replace (hd0 (q ++ r) =? 45) with false by lia.
+      cbn [Z.ltb Z.compare]. cbv beta iota. rewrite <- app_assoc.
+      rewrite (scan_while_run is_qmark q r Hq) by (try reflexivity; unfold is_qmark; lia). cbn [option_bind].
+      replace ((len h + len q =? 0) || (6 <? len h + len q)) with false by lia.
+      rewrite !len_cons, len_app. f_equal; lia.
+    - split; [|split; [lens; pose proof (len_nonneg (h1 ++ 45 :: h2)); lia|eauto]].
+      unfold consume_unicode_range. cbn [app]. rewrite peekz_0, peekz_1, peekz_0. cbn [option_bind].
+      replace ((u =? 117) || (u =? 85)) with true by lia. change (43 =? 43) with true. cbn [negb]. rewrite skipz_2.
+      rewrite <- app_assoc. cbn [app].
+      replace (h1 ++ 45 :: h2 ++ r ++ [0]) with (h1 ++ (45 :: h2 ++ r) ++ [0]) by (cbn [app]; rewrite <- app_assoc; reflexivity).
+      rewrite (scan_while_run is_hex h1 (45 :: h2 ++ r) Hh1 eq_refl eq_refl). cbn [option_bind]. rewrite skipz_len_app.
+      unfold consume_byte. cbn [app]. rewrite peekz_0. cbn [option_bind]. change (45 =? 45) with true.
+      cbn [Z.ltb Z.compare]. cbv beta iota. replace ((len h1 =? 0) || (6 <? len h1)) with false by lia. cbn [tl].
+      rewrite <- app_assoc. rewrite (scan_while_run is_hex h2 r Hh2 Hf eq_refl). cbn [option_bind].
+      replace ((len h2 =? 0) || (6 <? len h2)) with false by lia.
+      rewrite !len_cons, len_app, len_cons. f_equal; lia. }
+  destruct Hur as (Hur & Hlen & u & rest & -> & Hu). cbn [app] in *.
+  unfold css_scan. rewrite peekz_0. cbn [option_bind]. repeat dec1. rewrite Hur. cbn [option_bind].
+  replace (0 <? len (u :: rest)) with true by lia. reflexivity.
 Qed.
 
 (* --- the token grammar, class by class, with what may follow each token ------------------------------------------ *)
@@ -839,9 +1067,12 @@ Inductive tok_spec : ttype -> list Z -> list Z -> Prop :=
     sign_text sg -> all_b is_digit ip -> all_b is_digit fd -> (ip <> [] \/ fd <> []) -> exp_text ex ->
     ident_text unit r \/ custom_text unit r -> num_follow (nonemptyb fd) (nonemptyb ex) (unit ++ r) -> name_follow r ->
     tok_spec TDimension ((sg ++ ip ++ frac fd ++ ex) ++ unit) r
-| TS_string q body r : is_quote q -> all_b (str_byte q) body -> tok_spec TString (q :: body ++ [q]) r
-| TS_bad_string q body nl r : is_quote q -> all_b (str_byte q) body -> is_nl nl = true ->
-    tok_spec TBadString (q :: body ++ [nl]) r.
+| TS_string q body r : is_quote q -> sbody q body (q :: r) -> tok_spec TString (q :: body ++ [q]) r
+| TS_bad_string q body nl r : is_quote q -> sbody q body (nl :: r) -> is_nl nl = true ->
+    tok_spec TBadString (q :: body ++ [nl]) r
+| TS_string_eof q body bs : is_quote q -> sbody q body bs -> bs = [] \/ bs = [92] -> tok_spec TString (q :: body ++ bs) []
+| TS_delim c r : delim_ok c r -> tok_spec TDelim [c] r
+| TS_unicode_range t r : urange_text t r -> tok_spec TUnicodeRange t r.
 
 Lemma tok_spec_munch ty t r : tok_spec ty t r -> munch ty t r.
 Proof.
@@ -859,6 +1090,9 @@ Proof.
   - apply munch_dimension; assumption.
   - apply munch_string; assumption.
   - apply munch_bad_string; assumption.
+  - apply munch_string_eof; assumption.
+  - apply munch_delim; assumption.
+  - apply munch_unicode_range; assumption.
 Qed.
 
 (* every token is written according to its class and may be followed by the texts of the tokens after it *)
@@ -904,7 +1138,7 @@ Proof.
     + left. apply IT_core, (IC_char 101 [109]); [reflexivity|apply all_b_nbody, Hall; reflexivity].
     + repeat split; cbn; intros; try lia; try discriminate.
   - apply TS_fixed. cbn. auto 10.
-  - apply (TS_string 34 [120]); [left; reflexivity|apply Hall; reflexivity].
+  - apply (TS_string 34 [120]); [left; reflexivity|apply all_b_sbody, Hall; reflexivity].
   - apply (TS_comment []). reflexivity.
   - apply (TS_percentage [] [53] [] []); [left; reflexivity|apply Hall; reflexivity|constructor|left; discriminate|constructor].
 Qed.
